@@ -142,7 +142,7 @@ def alphabeta (k : Nat) : Nat → Board → Move → (rem cur : Nat) → (alpha 
           (m.isEmpty, m)
         else (rem == 0, moves)
       if isComplete then (eval board, { st with evals := st.evals + 1 })
-      else children k fuel board pc (rem - 1) (cur + 1) list 256 moves (worst pc) alpha beta st
+      else children k fuel board pc (rem - 1) (cur + 1) list 5000 moves (worst pc) alpha beta st
 
 /-- the `for mv in moves` loop of `alphabeta` -/
 def children (k : Nat) : Nat → Board → Color → (rem cur : Nat) → BoardList → Nat → MoveGen →
@@ -218,9 +218,9 @@ def deepen (k : Nat) (board : Board) (pc : Color) (tf : ThreeFold) :
     if stop then ⟨bestMv, bestScore, maxDepth, st.evals, st.polls⟩ else
     -- captures first, then everything else; a `break` in the first loop still runs the second
     let moves := moves.setMask (board.raw.color pc.flip)
-    let (p2, moves, st) := rootLoop k board pc depth tf 256 moves p1 st
+    let (p2, moves, st) := rootLoop k board pc depth tf 5000 moves p1 st
     let moves := moves.setMask BB.full
-    let (p3, _, st) := rootLoop k board pc depth tf 256 moves p2 st
+    let (p3, _, st) := rootLoop k board pc depth tf 5000 moves p2 st
     let (done, st) := poll k st
     if done then ⟨bestMv, bestScore, maxDepth, st.evals, st.polls⟩ else
     let depth' := if depth + 1 ≥ 65535 then 65535 else depth + 1
